@@ -1,3 +1,4 @@
+import CwMt.Proofs.EngineInv
 import CwMt.Proofs.Engine
 /-
   C05 — Contracts see the true caller, own address, current block and attached funds.
@@ -56,5 +57,20 @@ theorem insufficient_funds_no_call (cfg : Config E) (blk : Block) (fuel : Nat) (
     (hne : funds ≠ []) (hs : Bank.send ch.bank sender c funds = none) :
     execute cfg blk (fuel + 1) ch sender (.wasmExecute c msg funds) tr = (.err, tr) :=
   Engine.insufficient_funds_no_call cfg blk fuel ch sender c msg funds tr hne hs
+
+end CwMt.C05
+
+/-! ### the funds really arrive -/
+namespace CwMt.C05
+open CwMt
+
+/-- When funds are attached (sender ≠ callee) the state the callee runs on shows, for every
+denomination, the callee's balance raised and the sender's lowered by exactly the attached total. -/
+theorem funds_arrive {E : Type} (ch ch₁ : Chain E) (sender : Addr) (c : String) (funds : Coins)
+    (hinv : Bank.NormInv ch.bank) (hne : sender ≠ c) (hf : funds ≠ [])
+    (hs : sendFunds ch sender c funds = .ok ch₁) :
+    ∀ d, Bank.queryBalance ch₁.bank c d = Bank.queryBalance ch.bank c d + Bank.totalOf funds d ∧
+         Bank.queryBalance ch₁.bank sender d + Bank.totalOf funds d = Bank.queryBalance ch.bank sender d :=
+  EngineInv.funds_arrive ch ch₁ sender c funds hinv hne hf hs
 
 end CwMt.C05
